@@ -562,6 +562,125 @@ def run_pc_optimise(chk):
                        replayer=lambda m: {"failed": False, "description": m["info"]}, key=f"C16/{fn}/{clause[:40]}")
 
 
+# ------------------------------------------------------------------------------------------------ projection between nested models
+NUC_MODELS = ["JC69", "F81", "K80", "HKY85", "TN93", "GTR", "ssGN", "GN"]
+# which supplied nucleotide model is a special case of which (my reading of the models, not of the code): a model with
+# free motif probabilities is not a special case of the strand-symmetric ssGN, whose terms are not weighted by them
+NESTED_IN = {"JC69": ["F81", "K80", "HKY85", "TN93", "GTR", "ssGN", "GN"], "K80": ["HKY85", "TN93", "GTR", "ssGN", "GN"],
+             "F81": ["HKY85", "TN93", "GTR", "GN"], "HKY85": ["TN93", "GTR", "GN"], "TN93": ["GTR", "GN"], "GTR": ["GN"],
+             "ssGN": ["GN"]}
+EQUAL_FREQS = {"JC69", "K80"}          # motif probabilities fixed at 1/4
+
+
+def _nested_pairs():
+    """(simple, rich) pairs of supplied nucleotide models in which the rich model's parameters refine the simple model's:
+    every cell set of a rich term (reference cells included) lies inside one cell set of the simple model"""
+    from cogent3 import get_model
+    ms = {n: get_model(n) for n in NUC_MODELS}
+    co = {n: m.get_param_matrix_coords(include_ref_cell=True) for n, m in ms.items()}
+    out = []
+    for s_, richer in NESTED_IN.items():
+        for r_ in richer:
+            # the cell sets of the rich model must refine those of the simple one (else the table above is wrong)
+            if all(any(rc <= sc for sc in co[s_].values()) for rc in co[r_].values()) and len(co[r_]) >= len(co[s_]):
+                out.append((s_, r_))
+            else:
+                out.append((s_, r_, "not-a-refinement"))
+    return ms, co, out
+
+
+def _symbolic_Q(coords, values, pi, weighted):
+    """off-diagonal rate of cell (i, j): product of the terms whose cell set holds (i, j), times pi_j for models whose
+    exchangeabilities are weighted by the motif probabilities (my reading of calcQ; checked numerically by bounded/C05)"""
+    Q = {}
+    for i in range(4):
+        for j in range(4):
+            if i == j:
+                continue
+            v = pi[j] if weighted else z3.RealVal(1)
+            for name, cells in coords.items():
+                if name != "ref_cell" and (i, j) in cells:
+                    v = v * values[name]
+            Q[(i, j)] = v
+    return Q
+
+
+def run_projection(chk):
+    """the real _ParamProjection.update_param_rules is run on z3 reals (operator overloading: the code that runs is the
+    code proved) for every nested pair of supplied nucleotide models; postcondition: the rich model's rate matrix at the
+    projected values is proportional to the simple model's at the nested values, for all positive parameter values and
+    motif probabilities -- so after calibration the two processes, and their likelihoods, are equal"""
+    from cogent3.evolve.likelihood_function import _ParamProjection
+    from cogent3.evolve.substitution_model import Stationary
+    fn = "evolve.likelihood_function._ParamProjection.update_param_rules"
+    chk.function("cogent3/evolve/likelihood_function.py", "_ParamProjection.update_param_rules", "P")
+    chk.function("cogent3/evolve/likelihood_function.py", "_get_param_mapping", "P")
+    ms, co, pairs = _nested_pairs()
+    if not pairs:
+        chk.error(f"{fn}: no nested pair of models found")
+        return
+    pi = [z3.Real(f"pi{k}") for k in range(4)]
+    for pr in pairs:
+        if len(pr) == 3:
+            chk.error(f"{fn}: {pr[0]} -> {pr[1]}: cell sets are not a refinement (spec table NESTED_IN disagrees with the models)")
+            continue
+        s_, r_ = pr
+        sm, rm = ms[s_], ms[r_]
+        same = isinstance(sm, Stationary) == isinstance(rm, Stationary)
+        base = f"{fn}/cfg=({s_}->{r_})"
+        vals = {p_: z3.Real(f"v_{p_}") for p_ in sm.get_param_list()}
+        pre = [x > 0 for x in pi] + [v > 0 for v in vals.values()]
+        if s_ in EQUAL_FREQS:
+            pre += [x == z3.Q(1, 4) for x in pi]
+        try:
+            proj = _ParamProjection(sm, rm, pi, same=same)
+            rules = [dict(par_name=p_, init=v) for p_, v in vals.items()]
+            out = proj.update_param_rules(rules)
+        except Exception as e:
+            chk.undecided.append(f"{base}: the real code cannot be evaluated on symbolic reals ({type(e).__name__}: {e})")
+            continue
+        rich_vals = {p_: z3.RealVal(1) for p_ in rm.get_param_list()}        # a new function: every term at its default 1
+        ok_names = True
+        for o in out:
+            if o["par_name"] in rich_vals:
+                rich_vals[o["par_name"]] = o["init"] if z3.is_expr(o["init"]) else z3.RealVal(o["init"])
+            elif o["par_name"] != "ref_cell":
+                ok_names = False
+        QS = _symbolic_Q(co[s_], vals, pi, isinstance(sm, Stationary))
+        QR = _symbolic_Q(co[r_], rich_vals, pi, isinstance(rm, Stationary))
+        cells = sorted(QS)
+        ref = cells[0]
+        goal = z3.And(z3.BoolVal(ok_names), *[QR[c] * QS[ref] == QR[ref] * QS[c] for c in cells])
+        chk.obligation(f"{base}/cover", "cover", cover_thunk(pre), function=fn)
+        chk.obligation(f"{base}/post.rich-Q-proportional-to-nested-Q", "post", smt_thunk(pre, goal, 60, logic="QF_NRA"),
+                       function=fn, key=f"C16/{fn}/post", replayer=_replay_projection(s_, r_))
+
+
+def _replay_projection(s_, r_):
+    def rep(model):
+        """native: initialise_from_nested on a small alignment reproduces the nested lnL"""
+        import warnings
+        warnings.filterwarnings("ignore")
+        from cogent3 import get_model, make_aligned_seqs, make_tree
+        tree = make_tree("((a:0.1,b:0.2)n1:0.3,c:0.3,d:0.05);")
+        aln = make_aligned_seqs({"a": "ACGTAAGCTAGCTTAGGCAT", "b": "ACGTTAGCTAGCATAGGCAT", "c": "ATGTGAGCCAGCTTAGACAT",
+                                 "d": "CCGTAAGCTTGCTTCGGCAA"}, moltype="dna")
+        null = get_model(s_).make_likelihood_function(tree)
+        null.set_alignment(aln)
+        for i, p_ in enumerate(get_model(s_).get_param_list()):
+            null.set_param_rule(p_, init=(2.5, 0.4, 3.0, 0.7, 1.8)[i % 5])
+        alt = get_model(r_).make_likelihood_function(tree)
+        alt.set_alignment(aln)
+        try:
+            alt.initialise_from_nested(null)
+            a, b = float(null.lnL), float(alt.lnL)
+        except Exception as e:
+            return {"failed": True, "witness": f"{s_}->{r_}", "description": f"initialise_from_nested({s_} -> {r_}) raises {type(e).__name__}: {e}"}
+        return {"failed": abs(a - b) > 1e-8 * max(1, abs(a)), "witness": f"{s_}->{r_}",
+                "description": f"initialise_from_nested({s_} -> {r_}): nested lnL {a!r}, rich function starts at {b!r}"}
+    return rep
+
+
 def run(chk):
     for q in ("limited_use", "bounded_function", "bounds_exception_catching_function", "maximise"):
         chk.function(OPT, q, "P")
@@ -572,6 +691,7 @@ def run(chk):
         chk.guard(run_wrappers)
         chk.guard(run_maximise, fallback=[_replay_maximise])
         chk.guard(run_pc_optimise)
+        chk.guard(run_projection)
         chk.discharge()
     chk.assume("float is modelled as the extended reals [-INF, INF]; NaN is excluded by precondition; rounding is not modelled")
     chk.assume("the optimisers (Powell, simulated annealing) are arbitrary callers of the wrapped function: only the "
@@ -582,4 +702,6 @@ def run(chk):
     chk.level = "other"
     chk.explanation = ("best-so-far bookkeeping of limited_use proved as an inductive invariant over any evaluation sequence "
                        "(smt, reals); bound/exception wrappers and the finally-update of ParameterController.optimise by "
-                       "exception-flow execution; nested initialisation and monotone optimisation on real models bounded")
+                       "exception-flow execution; parameter projection between nested nucleotide models proved for all positive values "
+                       "(real code evaluated on symbolic reals, nonlinear real arithmetic); nested initialisation of whole "
+                       "functions and monotone optimisation on real models bounded")
